@@ -52,7 +52,11 @@ func vPadPath(store *SessionStore, req *http.Request, name string) int {
 	store.Cookie.Path = "/" + strings.Repeat("p", k)
 	probe := store.makeCookie(req, name, "", store.Cookie.Expire)
 	attrLen := len(probe.String()) - len(name) - 1
-	verifAssume(attrLen == 56+k)
+	if store.Cookie.Expire == 0 {
+		verifAssume(attrLen == 40+k) // a session cookie carries no Max-Age attribute
+	} else {
+		verifAssume(attrLen == 56+k)
+	}
 	return attrLen
 }
 
@@ -111,6 +115,9 @@ func vh_C10_step() {
 	}
 	name := vName(ndChoice("name", nk))
 	store := vStoreFor(name)
+	if ndBool("browser-session-cookies") {
+		store.Cookie.Expire = 0 // cookie_expire=0: cookies without Max-Age, deletions still need one
+	}
 	n := ndInt("session-bytes")
 	verifAssume(n >= 1 && n <= 8800)
 	value := []byte(strings.Repeat("A", n))
@@ -189,6 +196,9 @@ func vh_C10_clear() {
 	}
 	name := vName(ndChoice("name", nk))
 	store := vStoreFor(name)
+	if ndBool("browser-session-cookies") {
+		store.Cookie.Expire = 0
+	}
 	req := vReq("app.example")
 	var presented []string
 	if ndBool("has-unsplit") {
